@@ -8,7 +8,7 @@ EXTENDS Dims, Json, IOUtils, TLC
 Events == ndJsonDeserialize(IOEnv.TRACE)
 VARIABLES l, bad, seen
 vars == <<l, bad, seen>>
-Init == l = 1 /\ bad = <<>> /\ seen = [prints |-> 0, cmps |-> 0, ties |-> 0, summary |-> 0]
+Init == l = 1 /\ bad = <<>> /\ seen = [prints |-> 0, cmps |-> 0, ties |-> 0, summary |-> 0, serials |-> 0]
 IsEvent(e) == l <= Len(Events) /\ Events[l].e = e /\ l' = l + 1
 FormName == <<"bare", "caret", "paren">>
 B(x) == x = 1
@@ -31,6 +31,12 @@ TCmp == LET r == Events[l]
         IN /\ IsEvent("DimCmp") /\ IsDim(r.a) /\ IsDim(r.b)
            /\ bad' = IF good THEN bad ELSE Append(bad, [cls |-> "dims_order", a |-> r.a, b |-> r.b])
            /\ seen' = [seen EXCEPT !.cmps = @ + 1, !.ties = @ + (IF r.a[1] = r.b[1] THEN 1 ELSE 0)]
+(* beyond the listed properties: the JSON / XML / YAML forms of a dimension set list exactly the non-zero exponents, labelled, in the order T L M I Th N J *)
+TSerial == LET r == Events[l]
+               want == PrintTokens(r.d)
+           IN /\ IsEvent("DimSerial") /\ IsDim(r.d) /\ r.form \in {"JSON", "XML", "YAML"}
+              /\ bad' = IF r.ok /\ r.pairs = want THEN bad ELSE Append(bad, [cls |-> "extra_dims_serial", d |-> r.d, form |-> r.form])
+              /\ seen' = [seen EXCEPT !.serials = @ + 1]
 TSummary == LET r == Events[l] IN
            /\ IsEvent("DimSummary")
            /\ bad' = bad \o (IF \A i \in 1..7 : r.hash_sensitive[i] = 1 THEN <<>>
@@ -41,7 +47,7 @@ TSummary == LET r == Events[l] IN
 TFinish == /\ l = Len(Events) + 1 /\ l' = l + 1
            /\ JsonSerialize(IOEnv.OUT, [bad |-> bad, seen |-> seen])
            /\ UNCHANGED <<bad, seen>>
-Next == TPrint \/ TCmp \/ TSummary \/ TFinish
+Next == TPrint \/ TCmp \/ TSerial \/ TSummary \/ TFinish
 Spec == Init /\ [][Next]_vars
 Accepted == TLCGet("stats").diameter - 2 = Len(Events)
 =============================================================================
